@@ -4015,7 +4015,8 @@ fn exact_div<N>(n: N, rhs: N) -> Option<N>
 where
     N: std::ops::Div<Output = N> + std::ops::Rem<Output = N> + std::cmp::PartialEq + Copy + Default,
 {
-    (n % rhs == N::default()).then_some(n / rhs)
+    // a divisor of zero divides nothing evenly
+    (rhs != N::default() && n % rhs == N::default()).then(|| n / rhs)
 }
 
 // verification hook (add-only): harnesses live outside the repository and
